@@ -38,7 +38,7 @@ def duration_stream(rng, n, kind):
 KINDS = ["dyadic", "dyadic", "equal", "tiny", "huge", "tinyhuge", "small"]
 
 
-def timetable_checks(specs, durs, starts, perm, scope, tol=0.0, cycles=None):
+def timetable_checks(specs, durs, starts, perm, scope, tol=0.0, cycles=None, cons=None):
     """The five clauses of C11 on start times returned by the real code -> None or a description.
 
     Commutation is decided by the gates' actual matrices (`sc.truly_commute`), never by the code's rule.
@@ -52,7 +52,11 @@ def timetable_checks(specs, durs, starts, perm, scope, tol=0.0, cycles=None):
         (no dependency edge, and conflict edges are recorded only against the members of the cycle at the moment a
         candidate is examined -- so it also contains pairs that were candidates in the same round);
       * two instructions of one cycle must never overlap.
-    Scope "full" evaluates ordering for every non-commuting pair and overlap for every pair."""
+    Scope "full" evaluates ordering for every non-commuting pair and overlap for every pair.
+    `cons`: the constraint descriptors the Scheduler was built with (None = default).  The overlap clauses are required when
+    `qubit_constraint` is among them (first, last, anywhere); without it only the ordering of non-commuting pairs, the
+    earliest start and the makespan are required (C11.timetable_cons_any), and members of one cycle must respect every
+    constraint function of the list."""
     n = len(specs)
     if len(starts) != n:
         return f"{len(starts)} start times for {n} instructions"
@@ -77,6 +81,12 @@ def timetable_checks(specs, durs, starts, perm, scope, tol=0.0, cycles=None):
             declared = bool(perm) and sc.documented_rule(a, b)
             commute = bool(perm) and sc.truly_commute(a, b)
             same_cycle = i in where and where.get(i) == where.get(j)
+            if not sc.cons_has_qubit(cons):
+                if not commute and not (scope == "covered" and declared) and starts[j] < starts[i] + durs[i] - tol:
+                    return (f"instruction {j} ({b[0]} {b[1]} {b[2]}) starts at {starts[j]} before the earlier instruction {i} "
+                            f"({a[0]} {a[1]} {a[2]}; start {starts[i]}, duration {durs[i]}), with which it does not commute, "
+                            "has finished")
+                continue
             if same_cycle and overlap(i, j):
                 return (f"instructions {i} and {j} are in one cycle, share qubit(s) {sorted(used[i] & used[j])} and overlap")
             if not commute:
@@ -92,6 +102,13 @@ def timetable_checks(specs, durs, starts, perm, scope, tol=0.0, cycles=None):
                 if overlap(i, j):
                     return (f"instructions {i} and {j} share qubit(s) {sorted(used[i] & used[j])} and overlap: "
                             f"[{starts[i]}, {starts[i] + durs[i]}) and [{starts[j]}, {starts[j] + durs[j]})")
+    for c in (cycles or []):
+        for p in range(len(c)):
+            for q in range(p + 1, len(c)):
+                for f in (cons or []):
+                    if not sc.cons_verdict(f, specs, c[q], c[p]):
+                        return (f"instructions {c[p]} and {c[q]} are in one cycle ({cycles}) although the constraint function {f} of "
+                                f"{cons} forbids {c[q]} next to {c[p]}")
     if max(s + d for s, d in zip(starts, durs)) > sum(durs) + tol:
         return f"makespan {max(s + d for s, d in zip(starts, durs))} exceeds sequential duration {sum(durs)}"
     return None
@@ -151,6 +168,10 @@ class C11(PropertyCheck):
         "QipVerif.C11.timetable_valid_fixed",
         "QipVerif.C11.tree_conflict_fix",
         "QipVerif.C11.timetable_valid_tree",
+        "QipVerif.C11.constraints_default",
+        "QipVerif.C11.timetable_cons_any",
+        "QipVerif.C11.no_overlap_cons",
+        "QipVerif.C11.C11_constraints_absent",
         "QipVerif.C11.C11_counterexample_starts",
         "QipVerif.C11.C11_counterexample_overlap",
         "QipVerif.C11.C11_counterexample_no_overlap",
@@ -175,7 +196,12 @@ class C11(PropertyCheck):
                   "finding. The model is tied to the code by an exact comparison of start times (dyadic durations incl. equal / 2^-20 / "
                   "2^20 mixtures) and cycles, exhaustive for short lists over a small alphabet with two durations, with recorded "
                   "shuffles and with histories of up to 6 calls on one Scheduler object; the commutation rule and the conflict-edge "
-                  "flag of the model are regenerated from scheduler.py (Gen/SchedRule.lean, shared with C05).")
+                  "flag of the model are regenerated from scheduler.py (Gen/SchedRule.lean, shared with C05). CONSTRUCTOR ARGUMENTS "
+                  "(method tests and apply_constraint regenerated, C05.method_contract / apply_constraint_is_conjunction): for EVERY list "
+                  "of constraint functions timetable_cons_any (non-negative starts, earliest 0, dependency inequality, makespan bound), "
+                  "no_overlap_cons whenever qubit_constraint is in the list (first, last, anywhere; repaired recording), and "
+                  "C11_constraints_absent (without it two instructions on one qubit both start at 0); the correspondence and the oracles "
+                  "run 21 method values x 21 constraint lists.")
     level_note = ("All five clauses proved at full strength for the tree under test (both methods, both permutation settings, every "
                   "oracle, all non-negative integer durations over a common denominator). `dep_respected` speaks about the pairs the "
                   "code's rule does not declare commuting; that the declared pairs really commute is C05 (schedule_den_C_full). The "
@@ -200,8 +226,10 @@ class C11(PropertyCheck):
         "durations are non-negative numbers with a common denominator (the code only adds, subtracts, compares and maximises "
         "them; rounding of arbitrary floats is outside the model); min_start_zero needs a non-empty list",
         "at least one instruction uses a qubit (otherwise the code raises ValueError from max() of an empty set; model: err noqubits)",
-        "Scheduler.schedule is a function of its arguments, the two constructor settings and the shuffle outcomes (the model is "
-        "stateless); checked by histories of several calls on one Scheduler object",
+        "Scheduler.schedule is a function of its arguments, the constructor settings and the shuffle outcomes (the model is "
+        "stateless); checked by histories of several calls on one Scheduler object, also on the same Instruction list edited in place",
+        "no-overlap is provided by qubit_constraint and is claimed only when it is among the constraint functions; user constraint "
+        "functions are modelled for four kinds (qubit_constraint, allow everything, forbid one ordered index pair, forbid equal names)",
     ]
     rule = ("case = (instruction list as (name, targets, controls, duration numerator), method, allow_permutation, recorded "
             "shuffles, calls made before on the same Scheduler object); non-trivial = at least two instructions sharing a qubit; start times and cycles compared exactly")
@@ -232,11 +260,12 @@ class C11(PropertyCheck):
                 hist.append(c2)
             return st, starts, cyc, shuf, list(hist)
 
-        for specs, durs, method, perm, shuffle in batch:
+        for specs, durs, method, perm, shuffle, *rest in batch:
+            cons = rest[0] if rest else None
             derived = None
             if specs and rng.random() < 0.35:
-                sch, hist = chain.get(method, perm, 4)
-                store, oid = chain.objects(method, perm), chain.new_id()
+                sch, hist = chain.get(method, perm, 4, cons)
+                store, oid = chain.objects(method, perm, cons), chain.new_id()
                 r = chained(specs, durs, method, perm, shuffle, sch, hist, store, oid, [])
                 if r[0] == "ok" and rng.random() < 0.5:
                     N = 1 + max(q for x in specs for q in list(x[1]) + list(x[2]))
@@ -257,19 +286,20 @@ class C11(PropertyCheck):
                     r = ("other:" + type(e).__name__, None, None, None, None)
                 else:
                     log = sc.ShuffleLog(rng) if shuffle else None
-                    st, starts = sc.impl_schedule(ins, method, perm, log, random_shuffle=bool(shuffle))
+                    st, starts = sc.impl_schedule(ins, method, perm, log, cons=cons, random_shuffle=bool(shuffle))
                     shuf = log.log if log else None
                     cyc = None
                     if st == "ok":
                         log2 = sc.ShuffleLog(replay=log.log) if log else None
-                        st, cyc = sc.impl_schedule(ins, method, perm, log2, return_cycles_list=True, random_shuffle=bool(shuffle))
+                        st, cyc = sc.impl_schedule(ins, method, perm, log2, cons=cons, return_cycles_list=True,
+                                                   random_shuffle=bool(shuffle))
                     r = (st, starts, cyc, shuf, None)
             for sp, du, rr, edited in ((specs, durs, r, False),) + (((derived[0], derived[1], derived[2], True),) if derived else ()):
-                cases.append((sp, du, method, perm, shuffle, edited))
+                cases.append((sp, du, method, perm, shuffle, edited, cons))
                 impl.append(rr)
-                lines.append(sc.model_line(method, perm, [fields_of(x) + (d,) for x, d in zip(sp, du)], rr[3]))
+                lines.append(sc.model_line(method, perm, [fields_of(x) + (d,) for x, d in zip(sp, du)], rr[3], cons))
         outs = ctx.driver("drv_sched").run(lines)
-        for (specs, durs, method, perm, shuffle, edited), o, (st, starts, cyc, shuf, hist) in zip(cases, outs, impl):
+        for (specs, durs, method, perm, shuffle, edited, cons), o, (st, starts, cyc, shuf, hist) in zip(cases, outs, impl):
             used = [sc.used_of(s) for s in specs]
             nontriv = any(used[i] & used[j] for i in range(len(specs)) for j in range(i + 1, len(specs)))
             inp = {"ins": [[s[0], s[1], s[2], d] for s, d in zip(specs, durs)], "method": method, "perm": perm, "shuf": shuf}
@@ -277,14 +307,20 @@ class C11(PropertyCheck):
                 inp["calls_before_on_this_scheduler"] = [
                     [[g[0], g[1], g[2], d] for g, d in zip(c["ins"], c["durs"])] + [c["cycles"], c["obj"], c["edits"]]
                     for c in hist[:-2]]
-            res.case(inp, nontrivial=nontriv, tags=[tag, f"len={len(specs)}", f"method={method}", f"perm={int(perm)}",
+            if cons is not None:
+                inp["constraint_functions"] = cons
+            res.case(inp, nontrivial=nontriv, tags=[tag, f"len={len(specs)}", f"method={method!r}", f"perm={int(perm)}",
                                                     f"shuffle={int(bool(shuffle))}",
-                                                    "history=%d" % (0 if hist is None else min(len(hist), 8))]
+                                                    "history=%d" % (0 if hist is None else min(len(hist), 8)),
+                                                    "constraints=" + ("default" if cons is None else
+                                                                      "+".join(c if isinstance(c, str) else "f" for c in cons) or "none")]
                      + (["edited-in-place"] if edited else []))
             if hist is None:
                 w = {"ins": specs, "durs": durs, "den": sc.DEN, "method": method, "perm": perm, "shuf": shuf, "scope": "covered"}
             else:
                 w = {"history": hist, "method": method, "perm": perm, "scope": "covered"}
+            if cons is not None:
+                w["cons"] = cons
             m = sc.parse_model(o)
             mm = used_mismatch(specs)
             if mm:
@@ -359,6 +395,21 @@ class C11(PropertyCheck):
         batch = [(specs_from(seq), [d * sc.DEN for d in durs], m, p, k % 5 == 0)
                  for k, (seq, durs) in enumerate(shapes) for m, p in settings]
         self._flush(ctx, res, batch, "interleaved")
+        # constructor arguments: every `method` value x every constraint list on fixed lists, then random ---------------
+        batch = []
+        for seq, durs in self.CTOR_LISTS:
+            for m in sc.METHODS:
+                for cons in sc.CONS_LISTS:
+                    for p in (True, False):
+                        batch.append((specs_from(seq), [d * sc.DEN for d in durs], m, p, False, cons))
+        P3 = sc.placements(3, sc.FEW_NAMES)
+        for k in range(5000 if ctx.thorough else 800):
+            L = rng.randint(2, 8)
+            batch.append((specs_from([rng.choice(P3) for _ in range(L)]), duration_stream(rng, L, rng.choice(KINDS)),
+                          rng.choice(sc.METHODS), rng.random() < 0.8, rng.random() < 0.3, rng.choice(sc.CONS_LISTS)))
+        self._flush(ctx, res, batch, "constructor")
+        res.notes.append(f"constructor arguments: {len(sc.METHODS)} method values x {len(sc.CONS_LISTS)} constraint function lists "
+                         f"exhaustively on {len(self.CTOR_LISTS)} timed lists, both permutation settings, and at random")
         # degenerate ----------------------------------------------------------------------------
         batch = [([], [], m, p, False) for m, p in settings]
         batch += [(specs_from([("GLOBALPHASE", [], [])]), [sc.DEN], m, p, False) for m, p in settings]
@@ -370,8 +421,8 @@ class C11(PropertyCheck):
         evaluated on every pulse-mode start-time result (with the cycles of the following call when it asks for them on the
         same instruction list)"""
         _, _, Scheduler, _, _ = sc._mods()
-        method, perm = w["method"], w["perm"]
-        sch = Scheduler(method, allow_permutation=perm)
+        method, perm, cons = w["method"], w["perm"], w.get("cons")
+        sch = sc.new_scheduler(method, perm, cons)
         calls = w["history"]
         store = {}
         results = [sc.run_call(sch, c, method, perm, gate_of=gate_obj, store=store) for c in calls]
@@ -387,7 +438,7 @@ class C11(PropertyCheck):
                 cycles = results[k + 1][1]
             durs = [d / c["den"] for d in c["durs"]]
             bad = timetable_checks(c["ins"], durs, [float(x) for x in r], perm, w.get("scope", "full"),
-                                   tol=w.get("tol", 0.0), cycles=cycles)
+                                   tol=w.get("tol", 0.0), cycles=cycles, cons=cons)
             if bad:
                 return True, (f"call {k + 1} of {n} on one Scheduler object (instructions "
                               f"{[[g[0], g[1], g[2]] for g in c['ins']]}, durations {durs}): " + bad)
@@ -449,10 +500,10 @@ class C11(PropertyCheck):
     def oracle_replay(self, ctx, w):
         if "history" in w:
             return self._replay_history(ctx, w)
-        specs, den, method, perm = w["ins"], w.get("den", 1), w["method"], w["perm"]
+        specs, den, method, perm, cons = w["ins"], w.get("den", 1), w["method"], w["perm"], w.get("cons")
         durs = [d / den for d in w["durs"]]
         if not specs:
-            st, r = sc.impl_schedule([], method, perm)
+            st, r = sc.impl_schedule([], method, perm, cons=cons)
             return (st != "ok" or r != []), f"empty input -> {st} {r}"
         if all(not sc.used_of(s) for s in specs):
             return False, "no instruction uses a qubit (not a timed gate list)"
@@ -466,15 +517,15 @@ class C11(PropertyCheck):
             log = sc.ShuffleLog(replay=w["shuf"])
         elif w.get("shuffle_seed") is not None:
             log = sc.ShuffleLog(random.Random(w["shuffle_seed"]))
-        st, starts = sc.impl_schedule(ins, method, perm, log, random_shuffle=log is not None)
+        st, starts = sc.impl_schedule(ins, method, perm, log, cons=cons, random_shuffle=log is not None)
         if st != "ok":
             return True, f"schedule raised: {st}"
         log2 = sc.ShuffleLog(replay=log.log) if log is not None else None
-        st2, cycles = sc.impl_schedule(ins, method, perm, log2, return_cycles_list=True, random_shuffle=log is not None)
+        st2, cycles = sc.impl_schedule(ins, method, perm, log2, cons=cons, return_cycles_list=True, random_shuffle=log is not None)
         if st2 != "ok":
             return True, f"schedule(return_cycles_list=True) raised: {st2}"
         bad = timetable_checks(specs, durs, [float(x) for x in starts], perm, w.get("scope", "full"),
-                               tol=w.get("tol", 0.0), cycles=cycles)
+                               tol=w.get("tol", 0.0), cycles=cycles, cons=cons)
         if bad:
             return True, bad
         return False, f"starts {list(starts)}: valid timetable" + (
@@ -490,6 +541,10 @@ class C11(PropertyCheck):
         specs = specs_from([rng.choice(P) for _ in range(L)])
         w = {"ins": specs, "method": rng.choice(["ASAP", "ALAP"]), "perm": rng.random() < 0.6, "shuf": None,
              "shuffle_seed": rng.choice([None, rng.randrange(10 ** 6)]), "scope": "covered"}
+        if rng.random() < 0.15:
+            w["method"] = rng.choice(sc.METHODS_ODD)
+        if rng.random() < 0.25:
+            w["cons"] = rng.choice(sc.CONS_LISTS)
         if floats:     # arbitrary floats: only the final property, with a tolerance
             w.update(durs=[rng.choice([rng.uniform(0.01, 50.0), 10 ** rng.uniform(-6, 6)]) for _ in range(L)], den=1, tol=1e-6)
         else:
@@ -502,6 +557,25 @@ class C11(PropertyCheck):
                 yield {"ins": specs_from(seq), "durs": list(durs), "den": 1, "method": m, "perm": True,
                        "shuf": None, "scope": "covered"}
 
+    CTOR_LISTS = [
+        ([("X", [0], []), ("SNOT", [0], [])], [2, 3]),
+        ([("CNOT", [1], [0]), ("CNOT", [2], [0])], [2, 3]),
+        ([("CNOT", [1], [0]), ("SNOT", [2], []), ("CNOT", [2], [0])], [10, 1, 1]),
+        ([("RX", [0], []), ("IDLE", [0], []), ("RZ", [0], [])], [5, 1, 1]),
+        ([("CZ", [1], [0]), ("CZ", [2], [0]), ("CZ", [2], [1]), ("X", [0], [])], [1, 2, 3, 4]),
+        ([("SNOT", [1], []), ("CNOT", [1], [0]), ("CNOT", [2], [0]), ("RZ", [0], []), ("SWAP", [1, 2], [])], [3, 1, 4, 1, 5]),
+    ]
+
+    def _constructor_witnesses(self):
+        """every kind of constructor argument: all `method` values x all constraint lists on a few small timed lists"""
+        for seq, durs in self.CTOR_LISTS:
+            for m in sc.METHODS:
+                for cons in sc.CONS_LISTS:
+                    if m in ("ASAP", "ALAP") and cons is None:
+                        continue
+                    yield {"ins": specs_from(seq), "durs": list(durs), "den": 1, "method": m, "perm": True, "shuf": None,
+                           "scope": "covered", "cons": cons}
+
     def _shape_witnesses(self):
         for seq, durs in priority_shapes():
             for m in ("ASAP", "ALAP"):
@@ -510,6 +584,7 @@ class C11(PropertyCheck):
                            "shuf": None, "scope": "covered"}
 
     def _systematic(self):
+        yield from self._constructor_witnesses()
         yield from self._interleaved_witnesses()
         yield from self._shape_witnesses()
         alpha = [("CNOT", [1], [0]), ("CNOT", [2], [0]), ("CNOT", [2], [1]), ("SNOT", [2], []), ("X", [1], []),
@@ -542,6 +617,11 @@ class C11(PropertyCheck):
     def oracle_always(self, ctx):
         # scope "covered": commutation decided by the matrices; only the two recorded known-finding classes are skipped
         # (see timetable_checks); the other clauses are evaluated for every list.
+        ctor = list(self._constructor_witnesses())
+        for w in ctor[:len(sc.METHODS) * len(sc.CONS_LISTS)] + ctx.rng.sample(ctor, 400):
+            f, d = self.oracle_replay(ctx, w)
+            if f:
+                yield w, d
         shapes = list(self._shape_witnesses())
         for w in ctx.rng.sample(shapes, 80):
             f, d = self.oracle_replay(ctx, w)
